@@ -45,7 +45,15 @@ type tracked struct {
 	link   peering.Link
 	peer   int
 	w      *wire.Wire
-	closed bool // the harness closed it / its connection (must end up closing)
+	end    *wire.Conn // this link's end of the connection (nil for fake links)
+	closed bool       // the harness closed it / its connection (must end up closing)
+}
+
+// closeFinished: LinkBase.Close sets the closing flag first, then unregisters the link and the peer route, and
+// closes its connection last. The registry may legitimately still hold a link between the first and the last
+// step, so "closing" alone is not a quiescent point; "closing and the link has closed its connection" is.
+func (t *tracked) closeFinished() bool {
+	return t.link.IsClosing() && (t.end == nil || t.end.OwnerClosed())
 }
 
 type world struct {
@@ -74,11 +82,11 @@ func newWorld(res *core.Result, r *rand.Rand, ids []*m.Address, n int) *world {
 	return w
 }
 
-func (w *world) record(n *node, res wire.SetupResult, peer int, wr *wire.Wire) *tracked {
+func (w *world) record(n *node, res wire.SetupResult, peer int, wr *wire.Wire, end *wire.Conn) *tracked {
 	if res.Err != nil || res.Link == nil {
 		return nil
 	}
-	t := &tracked{link: res.Link, peer: peer, w: wr}
+	t := &tracked{link: res.Link, peer: peer, w: wr, end: end}
 	n.links = append(n.links, t)
 	return t
 }
@@ -97,8 +105,8 @@ func (w *world) connect(i, j int) {
 		w.fail = true
 		return
 	}
-	w.record(w.nodes[i], ra, j, wr)
-	w.record(w.nodes[j], rb, i, wr)
+	w.record(w.nodes[i], ra, j, wr, wr.A)
+	w.record(w.nodes[j], rb, i, wr, wr.B)
 	if ra.Err == nil && rb.Err == nil {
 		w.res.Count("connects_completed", 1)
 	} else {
@@ -183,10 +191,10 @@ func (w *world) crossDirected(i, j int) {
 	if w.fail {
 		return
 	}
-	w.record(w.nodes[i], o1.ra, j, w1)
-	w.record(w.nodes[j], o1.rb, i, w1)
-	w.record(w.nodes[j], o2.ra, i, w2)
-	w.record(w.nodes[i], o2.rb, j, w2)
+	w.record(w.nodes[i], o1.ra, j, w1, w1.A)
+	w.record(w.nodes[j], o1.rb, i, w1, w1.B)
+	w.record(w.nodes[j], o2.ra, i, w2, w2.A)
+	w.record(w.nodes[i], o2.rb, j, w2, w2.B)
 	n := 0
 	for _, r := range []wire.SetupResult{o1.ra, o1.rb, o2.ra, o2.rb} {
 		if r.Err == nil && r.Link != nil {
@@ -224,10 +232,10 @@ func (w *world) crossRandom(i, j int) {
 	}
 	go func() { defer wg.Done(); a2, b2, _ = wire.Handshake(w2, w.nodes[j].r, w.nodes[i].r, 30*time.Second) }()
 	wg.Wait()
-	w.record(w.nodes[i], a1, j, w1)
-	w.record(w.nodes[j], b1, i, w1)
-	w.record(w.nodes[j], a2, i, w2)
-	w.record(w.nodes[i], b2, j, w2)
+	w.record(w.nodes[i], a1, j, w1, w1.A)
+	w.record(w.nodes[j], b1, i, w1, w1.B)
+	w.record(w.nodes[j], a2, i, w2, w2.A)
+	w.record(w.nodes[i], b2, j, w2, w2.B)
 	n := 0
 	for _, r := range []wire.SetupResult{a1, b1, a2, b2} {
 		if r.Err == nil && r.Link != nil {
@@ -304,8 +312,8 @@ func (w *world) closeSome() {
 	default:
 		w.trace = append(w.trace, fmt.Sprintf("eof(%d<->%d)", n.idx, t.peer))
 		markBoth()
-		t.w.A.Close()
-		t.w.B.Close()
+		t.w.A.Cut()
+		t.w.B.Cut()
 	}
 }
 
@@ -386,8 +394,8 @@ func (w *world) closeDuringConnect(i, j int) {
 		w.fail = true
 		return
 	}
-	w.record(n, ra, j, wr)
-	w.record(w.nodes[j], rb, i, wr)
+	w.record(n, ra, j, wr, wr.A)
+	w.record(w.nodes[j], rb, i, wr, wr.B)
 	w.res.Count("closes_during_connect", 1)
 }
 
@@ -409,10 +417,10 @@ func (w *world) brokenSetup(i, j int) {
 		w.fail = true
 		return
 	}
-	if t := w.record(w.nodes[i], ra, j, wr); t != nil {
+	if t := w.record(w.nodes[i], ra, j, wr, wr.A); t != nil {
 		t.closed = true
 	}
-	if t := w.record(w.nodes[j], rb, i, wr); t != nil {
+	if t := w.record(w.nodes[j], rb, i, wr, wr.B); t != nil {
 		t.closed = true
 	}
 }
@@ -468,36 +476,77 @@ func (w *world) labelCollision() {
 	w.res.Count("label_collisions_accepted", 1)
 }
 
-// quiesce waits until every link the harness closed reports closing.
+// quiesce waits until every link the harness closed has finished closing, and until every link that reports
+// closing for any other reason (refused as duplicate, closed by its reader after the far end went away) has
+// finished, too. The wait is structural (see closeFinished); the 15 s are a watchdog whose firing is inconclusive.
 func (w *world) quiesce() bool {
-	ok := waitFor(func() bool {
-		for _, n := range w.nodes {
-			for _, t := range n.links {
-				if t.closed && !t.link.IsClosing() {
-					return false
-				}
-			}
-		}
-		return true
-	}, 15*time.Second)
-	if !ok {
+	pending := func() string {
 		detail := ""
 		for _, n := range w.nodes {
 			for _, t := range n.links {
-				if t.closed && !t.link.IsClosing() {
-					detail += fmt.Sprintf("[node %d link to %d outgoing=%v] ", n.idx, t.peer, t.link.Outgoing())
+				if (t.closed || t.link.IsClosing()) && !t.closeFinished() {
+					detail += fmt.Sprintf("[node %d link to %d outgoing=%v closing=%v] ", n.idx, t.peer, t.link.Outgoing(), t.link.IsClosing())
 				}
 			}
 		}
-		w.res.Inconcl("a link whose connection was closed did not report closing within 15s: %s events: %s", detail, strings.Join(w.trace[max(0, len(w.trace)-5):], "; "))
+		return detail
+	}
+	ok := waitFor(func() bool { return pending() == "" }, 15*time.Second)
+	if !ok {
+		w.res.Inconcl("a link whose connection was closed did not finish closing within 15s: %s events: %s", pending(), strings.Join(w.trace[max(0, len(w.trace)-5):], "; "))
 		w.fail = true
 	}
 	time.Sleep(300 * time.Microsecond)
+	// a far end may have noticed the close only now: let those finish as well
+	if ok && pending() != "" {
+		ok = waitFor(func() bool { return pending() == "" }, 15*time.Second)
+		if !ok {
+			w.res.Inconcl("a link that started closing did not finish within 15s: %s", pending())
+			w.fail = true
+		}
+	}
 	return ok
 }
 
-// check evaluates the registry/table invariants at a quiescent point.
+// check evaluates the registry/table invariants at a quiescent point. A verdict counts only if no link changed
+// its closing state while the invariants were read and no Close was in progress (closing flag set, connection
+// not yet closed by the link): otherwise the point was not quiescent and the next one decides.
 func (w *world) check() {
+	snap := func() (string, bool) {
+		st, inProgress := "", false
+		for _, n := range w.nodes {
+			for _, t := range n.links {
+				c := t.link.IsClosing()
+				if c && !t.closeFinished() {
+					inProgress = true
+				}
+				if c {
+					st += "c"
+				} else {
+					st += "l"
+				}
+			}
+		}
+		return st, inProgress
+	}
+	before, inProgress := snap()
+	if inProgress {
+		w.res.Count("checks_skipped_close_in_progress", 1)
+		return
+	}
+	sig, msg := w.checkOnce()
+	after, inProgress := snap()
+	if sig == "" {
+		return
+	}
+	if before != after || inProgress {
+		w.res.Count("checks_skipped_state_changed_during_check", 1)
+		return
+	}
+	w.violate(sig, msg)
+}
+
+func (w *world) checkOnce() (string, string) {
 	for _, n := range w.nodes {
 		p := n.r.Inst.PeeringV
 		labels := map[m.SwitchLabel]*tracked{}
@@ -506,34 +555,28 @@ func (w *world) check() {
 			peerIP := w.nodes[t.peer].id.IP
 			if t.link.IsClosing() {
 				if p.GetLink(peerIP) == t.link || p.GetLinkByLabel(t.link.SwitchLabel()) == t.link {
-					w.violate("closing-link-still-registered", fmt.Sprintf("node %d: a closing link to node %d can still be found in the registry", n.idx, t.peer))
-					return
+					return "closing-link-still-registered", fmt.Sprintf("node %d: a closing link to node %d can still be found in the registry", n.idx, t.peer)
 				}
 				continue
 			}
 			livePeers[peerIP] = true
 			if t.link.SwitchLabel() == 0 {
-				w.violate("live-link-without-label", fmt.Sprintf("node %d: live link to node %d has switch label 0", n.idx, t.peer))
-				return
+				return "live-link-without-label", fmt.Sprintf("node %d: live link to node %d has switch label 0", n.idx, t.peer)
 			}
 			if o := labels[t.link.SwitchLabel()]; o != nil {
-				w.violate("duplicate-switch-label", fmt.Sprintf("node %d: two live links (to nodes %d and %d) share switch label %d", n.idx, o.peer, t.peer, t.link.SwitchLabel()))
-				return
+				return "duplicate-switch-label", fmt.Sprintf("node %d: two live links (to nodes %d and %d) share switch label %d", n.idx, o.peer, t.peer, t.link.SwitchLabel())
 			}
 			labels[t.link.SwitchLabel()] = t
 			if p.GetLink(peerIP) != t.link {
-				w.violate("live-link-not-found-by-peer", fmt.Sprintf("node %d: an established, not-closing link to node %d is not the one GetLink returns (registry has %v)", n.idx, t.peer, p.GetLink(peerIP)))
-				return
+				return "live-link-not-found-by-peer", fmt.Sprintf("node %d: an established, not-closing link to node %d is not the one GetLink returns (registry has %v)", n.idx, t.peer, p.GetLink(peerIP))
 			}
 			if p.GetLinkByLabel(t.link.SwitchLabel()) != t.link {
-				w.violate("live-link-not-found-by-label", fmt.Sprintf("node %d: an established, not-closing link to node %d cannot be found by its switch label %d", n.idx, t.peer, t.link.SwitchLabel()))
-				return
+				return "live-link-not-found-by-label", fmt.Sprintf("node %d: an established, not-closing link to node %d cannot be found by its switch label %d", n.idx, t.peer, t.link.SwitchLabel())
 			}
 		}
 		for _, l := range p.GetLinks() {
 			if l.IsClosing() {
-				w.violate("closing-link-listed", fmt.Sprintf("node %d: GetLinks lists a closing link", n.idx))
-				return
+				return "closing-link-listed", fmt.Sprintf("node %d: GetLinks lists a closing link", n.idx)
 			}
 		}
 		routes := map[netip.Addr]bool{}
@@ -542,23 +585,21 @@ func (w *world) check() {
 				routes[e.DstIP] = true
 			}
 			if !livePeers[e.NextHop] {
-				w.violate("route-without-live-link", fmt.Sprintf("node %d: a route to %s uses next hop %s, to which there is no live link", n.idx, e.DstIP, e.NextHop))
-				return
+				return "route-without-live-link", fmt.Sprintf("node %d: a route to %s uses next hop %s, to which there is no live link", n.idx, e.DstIP, e.NextHop)
 			}
 		}
 		for ip := range livePeers {
 			if !routes[ip] {
-				w.violate("live-link-without-peer-route", fmt.Sprintf("node %d: there is a live link to %s but no direct-peer route", n.idx, ip))
-				return
+				return "live-link-without-peer-route", fmt.Sprintf("node %d: there is a live link to %s but no direct-peer route", n.idx, ip)
 			}
 		}
 		for ip := range routes {
 			if !livePeers[ip] {
-				w.violate("peer-route-without-live-link", fmt.Sprintf("node %d: direct-peer route for %s but no live link", n.idx, ip))
-				return
+				return "peer-route-without-live-link", fmt.Sprintf("node %d: direct-peer route for %s but no live link", n.idx, ip)
 			}
 		}
 	}
+	return "", ""
 }
 
 func (w *world) teardown() {
